@@ -346,7 +346,15 @@ def _is_boolish(v):
 
 
 def atoms_at(fn, terms, block):
-    """All comparison atoms known to hold on entry to `block` (from dominating edges)."""
+    """All comparison atoms known to hold on entry to `block` (from dominating edges), plus what they imply about boolean flags
+    kept in locals (`ok = a && b; if (!ok) error;` -- see flag_provenance)."""
+    out = _atoms_at0(fn, terms, block)
+    if any(a[0] == 'cmp' and a[1] in ('eq', 'ne') and (a[2][0] == 'phi' or a[3][0] == 'phi') for a in out):
+        out = out + flag_provenance(fn, terms, out, (), lambda b: _atoms_at0(fn, terms, b))
+    return out
+
+
+def _atoms_at0(fn, terms, block):
     out = []
     for b, s, lab in guards_at(fn, block):
         k = lab[0]
@@ -689,7 +697,11 @@ def _flag_edges(fn, terms, atom, removed, edge_atoms_fn):
         tv = terms.term(v)
         if has_atom(ea, NEG[atom[1]], tv, ('const', c)):
             continue            # this edge is taken only when the value does NOT satisfy the atom
-        out.append((pb, ea + [('cmp', atom[1], tv, ('const', c))]))
+        more = [('cmp', atom[1], tv, ('const', c))]
+        if tv[0] == 'cmp' and c == 0:
+            # the incoming value is itself a comparison (`ok = a && b`): (cmp != 0) is the comparison, (cmp == 0) its negation
+            more.append(tv if atom[1] == 'ne' else ('cmp', NEG[tv[1]], tv[2], tv[3]))
+        out.append((pb, ea + more))
     return out
 
 
